@@ -293,6 +293,88 @@ pub fn check(prop: &str, tier: &str) -> i32 {
         }
         all_outputs.extend(out.xval_outputs);
     }
+    // very large memos (beyond the 1-byte and 2-byte index widths): NONE, then N x PUT / LONG_BINPUT / MEMOIZE built by
+    // repeating the steady-state script unit learned at 257..259 entries, then every possible last choice byte.
+    // Untraced (a trace of 65 537 steps would hold 65 537 memo snapshots); judged from the bytes alone.
+    if matches!(prop, "C01" | "C02" | "C04" | "C05") {
+        use rayon::prelude::*;
+        let noop = |_: &RunCtx| -> Vec<Finding> { vec![] };
+        let sizes: Vec<usize> = if tier == "quick" { vec![1000, 65_537] } else { vec![300, 1000, 65_535, 65_537, 70_000] };
+        let mut runs = 0u64;
+        for p in (0..=5u8).rev() {
+            if tier == "quick" && !(p == 0 || p == 1 || p == 4) {
+                continue;
+            }
+            let puts: Vec<u8> = match p {
+                0 => vec![b'p'],
+                1..=3 => vec![b'p', b'r'],
+                _ => vec![0x94, b'r'],
+            };
+            for put in puts {
+                let cfg = Cfg::new(p).flags(true, true);
+                let ex = Explorer { base_cfg: cfg.clone(), opts: Opts::default(), monitor: &noop, xval_full: Default::default(), choice_discovery: Default::default() };
+                let mk = |n: usize| -> Option<Vec<u8>> {
+                    let mut plan = vec![vec![b'N']];
+                    // the 1-byte form first (as the generator may prefer), then the long form under test
+                    plan.extend(std::iter::repeat(if p == 0 { vec![b'p'] } else if p >= 4 { vec![0x94] } else { vec![b'q', b'r'] }).take(256));
+                    plan.extend(std::iter::repeat(vec![put]).take(n - 256));
+                    crate::explore::scenario(&ex, false, &plan).ok().map(|r| r.script)
+                };
+                let (Some(a), Some(b), Some(c)) = (mk(258), mk(259), mk(260)) else {
+                    rep.machinery.push(format!("big memo: cannot build the 258..260 entry scripts for protocol {p} with {}", lexer::name(put)));
+                    continue;
+                };
+                if !(b.starts_with(&a) && c.starts_with(&b)) || b[a.len()..] != c[b.len()..] || b.len() == a.len() {
+                    rep.machinery.push(format!("big memo: no steady script unit for protocol {p} with {}", lexer::name(put)));
+                    continue;
+                }
+                let unit = b[a.len()..].to_vec();
+                for &n in &sizes {
+                    let mut base = a.clone();
+                    for _ in 258..n {
+                        base.extend_from_slice(&unit);
+                    }
+                    let k = n + 2; // NONE + n stores + one free last step
+                    let res: Vec<(u8, Vec<Finding>, Option<usize>)> = (0..70u8)
+                        .into_par_iter()
+                        .map(|last| {
+                            let mut s = base.clone();
+                            s.push(last);
+                            let mut c = cfg.clone();
+                            c.min = k;
+                            c.max = k;
+                            let r = crate::run::run_bytes(&c, &s, false, false);
+                            let tr = trace::parse(&[], 0, false);
+                            match r.bytes() {
+                                Some(bts) => {
+                                    let (ops, m) = analyse(bts);
+                                    let stores = ops.as_ref().ok().map(|(o, _)| o.iter().filter(|x| matches!(x.code, b'p' | b'q' | b'r' | 0x94)).count());
+                                    let ctx = RunCtx { cfg: &c, script: &s, res: &r, tr: &tr, ops: &ops, m: m.as_ref() };
+                                    (last, mon(&ctx), stores)
+                                }
+                                None => (last, vec![], None),
+                            }
+                        })
+                        .collect();
+                    for (last, fs, stores) in res {
+                        runs += 1;
+                        if stores.map(|x| x < n).unwrap_or(false) {
+                            rep.machinery.push(format!("big memo: protocol {p} {} n={n}: only {:?} memo stores in the output (script unit not steady)", lexer::name(put), stores));
+                        }
+                        for fd in fs {
+                            rep.finding_raw(
+                                &format!("{}:memo-of-{n}", fd.class),
+                                &format!("P{p}, {n} memo entries via {}, last choice byte {last}: {}", lexer::name(put), fd.msg),
+                                json!({"kind":"big-memo","config":cfg.to_json(),"protocol":p,"store":lexer::name(put),"entries":n,"last_choice_byte":last,"prefix_hex":lexer::hex(&a),"unit_hex":lexer::hex(&unit)}),
+                            );
+                        }
+                    }
+                }
+            }
+        }
+        rep.transitions += runs;
+        rep.set("big_memo_generations", json!({"sizes": sizes, "generations": runs}));
+    }
     // deeper stacks than the closure's box: every stack of depth <= 5 (6) over one representative per kind class,
     // consumers run once from each
     if matches!(prop, "C01" | "C03" | "C17") {
@@ -493,6 +575,36 @@ pub fn replay(path: &str) -> i32 {
     if matches!(v["kind"].as_str(), Some("mutator") | Some("adapter") | Some("typeconfusion")) {
         println!("replaying {} [{}]: {}", v["property"].as_str().unwrap_or(""), v["class"].as_str().unwrap_or(""), v["message"].as_str().unwrap_or(""));
         return crate::units::replay(&v);
+    }
+    if v["kind"].as_str() == Some("big-memo") {
+        println!("replaying {} [{}]: {}", v["property"].as_str().unwrap_or(""), v["class"].as_str().unwrap_or(""), v["message"].as_str().unwrap_or(""));
+        let mut cfg = Cfg::from_json(&v["config"]);
+        let n = v["entries"].as_u64().unwrap_or(258) as usize;
+        let mut s = lexer::unhex(v["prefix_hex"].as_str().unwrap_or(""));
+        let unit = lexer::unhex(v["unit_hex"].as_str().unwrap_or(""));
+        for _ in 258..n {
+            s.extend_from_slice(&unit);
+        }
+        s.push(v["last_choice_byte"].as_u64().unwrap_or(0) as u8);
+        cfg.min = n + 2;
+        cfg.max = n + 2;
+        println!("config: {} ; script = prefix + unit x {} + last byte ({} bytes)", cfg.describe(), n.saturating_sub(258), s.len());
+        let r = run_bytes(&cfg, &s, false, false);
+        let tr = trace::parse(&[], 0, false);
+        let prop = v["property"].as_str().unwrap_or("").to_string();
+        return match r.bytes() {
+            Some(b) => {
+                let (ops, m) = analyse(b);
+                let ctx = RunCtx { cfg: &cfg, script: &s, res: &r, tr: &tr, ops: &ops, m: m.as_ref() };
+                let fs = monitor_for(&prop)(&ctx);
+                for f in &fs {
+                    println!("FINDING {} {}: {}", f.prop, f.class, f.msg);
+                }
+                println!("output: {} bytes, last opcodes: {}", b.len(), lexer::disasm(&b[b.len().saturating_sub(12)..]).replace('\n', " | "));
+                (!fs.is_empty()) as i32
+            }
+            None => 1,
+        };
     }
     if v["kind"].as_str() == Some("hash-order") {
         println!("replaying {} [{}]: {}", v["property"].as_str().unwrap_or(""), v["class"].as_str().unwrap_or(""), v["message"].as_str().unwrap_or(""));
